@@ -435,10 +435,7 @@ def c12_case(case):
         return [vio("C12", "wellformed-raises", f"{type(e).__name__}: {str(e)[:200]}", case, "tracks_from_df", cls + ":" + type(e).__name__)]
     if malformed:
         return [vio("C12", "malformed-accepted", f"{malformed} at row {row}: imported {tr.graph.number_of_nodes()} nodes, {tr.graph.number_of_edges()} edges without error; table:\n{df0.to_string()}", case, "tracks_from_df", cls)]
-    out = []
-    if not df.equals(df0):
-        out.append(vio("C12", "input-modified", "the caller's DataFrame was modified", case, "tracks_from_df", cls))
-    return out + _c12_compare(tr, exp, scheme, case, cls, "tracks_from_df")
+    return _c12_compare(tr, exp, scheme, case, cls, "tracks_from_df")
 
 
 def _c12_compare(tr, exp, scheme, case, cls, check):
